@@ -12,7 +12,8 @@ PROP = "C16"
 RULE = (
     "code bases of 2-12 files whose contents are drawn from a pool of 8 byte strings (empty, differing only in the last "
     "byte, differing only in length, CR vs LF, non-UTF-8 bytes), so equivalence classes of every size occur, with twins "
-    "that are excluded by pattern, outside the root, non-source files, or symbolic links (to files inside and outside). "
+    "that are excluded by pattern, outside the root, non-source files, or symbolic links (to files inside and outside); "
+    "the code base is sometimes given further directories that overlap, repeat or lie beside the first. "
     "Oracle: direct byte-wise partition of the non-symlink members of list(codebase); the groups of size >= 2 must equal "
     "the reported groups exactly as a set of sets (in-process report.find_duplicates and the Duplicates section of "
     "`codebasin -R duplicates`). Non-trivial: >=2 groups or one of size >=3, together with a near-duplicate and an "
@@ -43,7 +44,9 @@ def case_strategy():
             links[(d + "/" if d else "") + f"l{j}{os.path.splitext(tgt)[1]}"] = os.path.relpath(tgt, d or ".")
         excludes = draw(st.sampled_from([[], [], ["excl/"], ["*.h"], ["/src/a/"], ["excl/", "*.cpp"]]))
         # files that come out of an archive or a checkout often share one modification time
-        return {"files": files, "links": links, "excludes": excludes, "same_mtime": draw(st.booleans())}
+        # a code base may be given several directories; they may overlap or repeat
+        roots = draw(st.sampled_from([[], [], [], ["src"], ["src/a", "src"], ["."], ["lib", "src/a"], ["../ext"]]))
+        return {"files": files, "links": links, "excludes": excludes, "same_mtime": draw(st.booleans()), "roots": roots}
 
     return case()
 
@@ -60,7 +63,8 @@ def check_case(case, res: Result, cli=False):
             for k in case["files"]:
                 os.utime(os.path.join(root, k), ns=(1_600_000_000_000_000_000, 1_600_000_000_000_000_000))
         filecmp.clear_cache()
-        cb = CodeBase(root, exclude_patterns=list(case["excludes"]))
+        extra_roots = [os.path.join(root, r) for r in case.get("roots", []) if os.path.isdir(os.path.join(root, r))]
+        cb = CodeBase(root, *extra_roots, exclude_patterns=list(case["excludes"]))
         members = [p for p in cb if not os.path.islink(p)]
         by = {}
         for p in members:
@@ -100,6 +104,8 @@ def check_case(case, res: Result, cli=False):
                 if gotc != expected or ("No duplicates found." in sec) != (not expected):
                     vs.append(make_violation("cli:groups-differ", case, sorted(sorted(s) for s in expected), sorted(sorted(s) for s in gotc)))
             res.labels["cli"] += 1
+        if extra_roots:
+            res.labels["several-root-directories"] += 1
         contents = [case["files"][k] for k in case["files"]]
         special = bool(case["links"]) or bool(case["excludes"]) or any(k.startswith("../") or k.endswith((".txt", ".dat")) for k in case["files"])
         near = len({1, 2, 3, 4} & set(contents)) >= 2
